@@ -24,6 +24,23 @@ notes = {
  "C19": ("VerifC19LaunchMany with client creation failing on the first call only", ""),
  "C20": ("VerifC20BeginBlockMany (202 consumers due at once)", ""),
 }
+
+notes.update({
+ "C01-r2": ("consumer VerifC01ConsumerApply (engine receives a removal of a validator it never had)", "caught as built"),
+ "C02-r2": ("VerifC02ListUpdate (C02.lists.index-holds-exactly-the-latest-list)", "missed by the first version (list updates through SetConsumerPowerShapingParameters were not exercised); harness added, run by C02 and C04"),
+ "C03-r2": ("VerifC03MinPower (C03.minpower.set-holds-N-percent)", "caught as built"),
+ "C04-r2": ("VerifC02ListUpdate (priority-list index stale after an update differing only in the first entry)", "caught by the harness added for C02-r2"),
+ "C05-r2": ("VerifC05ValidatorRemoved (C05.removed.assignment-record-of-removed-validator-deleted)", "no harness for the validator-removal hook existed; added while the seed was being written (predicted from the patch), then confirmed"),
+ "C06-r2": ("VerifC06Prune (C06.prune.other-consumers-entries-kept)", "the pruning harness had a single consumer; a second consumer whose keys sort first was added (predicted from the patch), then confirmed"),
+ "C07-r2": ("VerifC07Misbehaviour (C07.misbehaviour-accepted-iff-valid-and-some-signer-punishable)", "missed by the first version (no light-client misbehaviour harness); harness added with the light-client module replaced by its declared verdict, violation replayed against the real module"),
+ "C08-r2": ("VerifC01QueueVSC (C08.slash-acks-kept-until-a-packet-is-queued)", "the harness caught it under check C01; C08 now runs it too"),
+ "C09-r2": ("consumer VerifC09ConsumerSend (C09.consumer.vsc-matured-ack-leaves-the-queue-alone)", "missed by the first version (only the slash packet's acknowledgement was applied); acknowledgements of the vsc-matured packets sent ahead were added"),
+ "C10-r2": ("VerifC10UpdatePhase (C10.inv.initialized-scheduled-exactly-once-at-its-spawn-time)", "caught as built"),
+ "C12-r2": ("consumer VerifC08ConsumerReports (C12.consumer.slash-packet-carries-id-of-infraction-height)", "caught as built"),
+ "C13-r2": ("VerifC16AllocateLoop (C16.loop.unregistered-denom-never-paid)", "the harness caught it under check C16; C13 now runs it too"),
+ "C14-r2": ("VerifC05AssignStep (C05.assign.rejected-iff-rule-applies)", "the harness caught it under check C05; C14 now runs it too"),
+})
+
 rows = []
 sd = os.path.join(V, "seeded")
 for d in sorted(os.listdir(sd)):
